@@ -67,7 +67,12 @@ theorem cursor_mode_selects (u : Uni) (k : Key) (deckpam decckm : Bool) (fin : I
   obtain ⟨h1, h2, h3⟩ := hm
   have hmode : (deckpam, decckm) ∈ allModes := by cases deckpam <;> cases decckm <;> decide
   have := cursor_tables _ hk _ hmode
-  simp only [encodeXterm, h1, h2, h3, Nat.or_self]
+  have hlt : k.keycode < KeyKeyPad0 := by
+    have hall : (cursorKeys.all fun e => decide (e.1 < KeyKeyPad0)) = true := by decide
+    simp only [List.all_eq_true, decide_eq_true_eq] at hall
+    exact hall _ hk
+  rw [encodeXterm_core_of_lt _ _ _ _ hlt]
+  simp only [encodeXtermCore, h1, h2, h3, Nat.or_self]
   simp only [] at this
   rw [encodeTables_text _ _ _ _ _ (cursorKeys_special _ hk), this]
 
@@ -98,7 +103,8 @@ theorem plain_char_roundtrip (u : Uni) (k : Key) (pam ckm : Bool)
   obtain ⟨h32, hmax, hv⟩ := hk
   have hm7 : k.mods &&& 7 = 0 := hm
   constructor
-  · unfold encodeXterm
+  · rw [encodeXterm_core_of_lt _ _ _ _ (by have := maxRune_lt_keypad; omega)]
+    unfold encodeXtermCore
     simp only [xm_eq, hm7]
     rw [encodeTables_char _ _ _ _ _ hmax (Or.inr (by decide))]
     rcases ht with ht | ht <;> simp [strOfRune, hv, renderSeq, ht]
@@ -134,7 +140,8 @@ theorem alt_char_roundtrip (u : Uni) (k : Key) (pam ckm : Bool)
   have hc : k.mods &&& ModCtrl = 0 := by
     have := and7 k.mods ModCtrl (by decide); rw [this, hm7]; decide
   constructor
-  · unfold encodeXterm
+  · rw [encodeXterm_core_of_lt _ _ _ _ (by have := maxRune_lt_keypad; omega)]
+    unfold encodeXtermCore
     simp only [xm_eq, hm7]
     rw [encodeTables_char _ _ _ _ _ hmax (Or.inr (by decide))]
     have ha' : k.mods &&& 2 = 2 := ha
@@ -168,7 +175,8 @@ theorem ctrl_letter_roundtrip (u : Uni) (k : Key) (pam ckm : Bool)
     have := and7 k.mods ModCtrl (by decide); rw [this, hm7]; decide
   have hmax : k.keycode < maxRune := by simp only [maxRune]; omega
   constructor
-  · unfold encodeXterm
+  · rw [encodeXterm_core_of_lt _ _ _ _ (by have := maxRune_lt_keypad; omega)]
+    unfold encodeXtermCore
     simp only [xm_eq, hm7]
     rw [encodeTables_char _ _ _ _ _ hmax (Or.inr (by decide))]
     have hc' : k.mods &&& 4 = 4 := hc
